@@ -309,7 +309,22 @@ def _plain_standard_op(view: ProtoView, name: str) -> bool:
         return False
     if any(a.HasField("g") or len(a.graphs) for a in node.attribute):
         return False
-    return node.op_type not in ("Compress", "Loop", "If", "Scan")
+    if node.op_type in ("Compress", "Loop", "If", "Scan"):
+        return False
+    # ... and not computed from a control-flow result: the reference evaluator is no witness there (its
+    # Loop treats an omitted `cond` as false and returns the initial values)
+    seen, stack = set(), list(view.deps(node))
+    while stack:
+        x = stack.pop()
+        if x in seen:
+            continue
+        seen.add(x)
+        n = view.prod.get(x)
+        if n is not None:
+            if any(a.HasField("g") or len(a.graphs) for a in n.attribute):
+                return False
+            stack.extend(view.deps(n))
+    return True
 
 
 def adjudicate(view: ProtoView, feed: dict, exposed: list, fails: list[dict], st: dict) -> list[dict]:
